@@ -590,7 +590,8 @@ impl Property for C03 {
                             out.violations.push(Violation::new("success_despite_fault", format!("{how}: exit 0 although the input is not a complete program (empty, or torn inside its header)")).with("batch", sub).with("fault", inf.name()));
                         } else if matches!(inf, InFault::Missing | InFault::IsDir) {
                             out.violations.push(Violation::new("success_despite_fault", format!("{how}: exit 0 with an unreadable input")).with("batch", sub).with("fault", inf.name()));
-                        } else if must_fail_out {
+                        } else if must_fail_out && !(matches!(outf, OutFault::Enospc) && text.is_some()) {
+                            // (an ENOSPC target that the tool replaced by a complete file of its own is judged below)
                             out.violations.push(Violation::new("success_despite_fault", format!("{how}: exit 0 although the program could not be written")).with("batch", sub).with("fault", outf.name()));
                         } else if matches!(outf, OutFault::StdoutClosed) {
                             out.probe("stdout_closed_not_judged");
